@@ -41,6 +41,30 @@ def c10_continues_after_error(ctx):
     return _fired(ctx, "C10.R3", "flush_infos"), "C10.R3 on storage::Storage::flush_infos (storage I/O on the error arm)"
 
 
+def c12_secret_exported_elsewhere(ctx):
+    from .rules import c12
+    c12.r4(ctx)
+    return _fired(ctx, "C12.R4", "ctl_secret_exported"), "C12.R4 on crypto::ctl_secret_exported"
+
+
+def c13_send_outside_owner(ctx):
+    from .rules import c13
+    c13.r1(ctx)
+    return _fired(ctx, "C13.R1", "core::Hypercore::clear"), "C13.R1 on core::Hypercore::clear sending an event"
+
+
+def c15_double_lock(ctx):
+    from .rules import c15
+    c15.r1(ctx)
+    return _fired(ctx, "C15.R1", "ctl_double_lock"), "C15.R1 on SharedCore::ctl_double_lock"
+
+
+def c15_lock_in_loop(ctx):
+    from .rules import c15
+    c15.r1(ctx)
+    return _fired(ctx, "C15.R1", "ctl_lock_in_loop|lock in loop"), "C15.R1 on SharedCore::ctl_lock_in_loop"
+
+
 def run(names, extract):
     out = []
     for n in names:
